@@ -63,6 +63,8 @@ enum Op {
     InScope { t: u8, slot: u8, body: Body },
     Record { t: u8, slot: u8, declared: bool, v: i64 },
     FollowsFrom { t: u8, slot: u8, other: u8 },
+    /// `span.follows_from(&entered_guard)`: an owned guard of the thread used as the cause
+    FollowsFromGuard { t: u8, slot: u8, g: u16 },
     Current { t: u8, to: u8 },
     OrCurrent { t: u8, slot: u8 },
     Event { t: u8 },
@@ -401,6 +403,7 @@ fn run_case(case: &Case) -> Outcome {
                 Op::InScope { t, slot, body } => Op::InScope { t, slot: o(slot), body },
                 Op::Record { t, slot, declared, v } => Op::Record { t, slot: o(slot), declared, v },
                 Op::FollowsFrom { t, slot, other } => Op::FollowsFrom { t, slot: o(slot), other: o(other) },
+                Op::FollowsFromGuard { t, slot, g } => Op::FollowsFromGuard { t, slot: o(slot), g },
                 Op::OrCurrent { t, slot } => Op::OrCurrent { t, slot: o(slot) },
                 Op::Instrument { t, slot, fut, lib, ready_after, emits, panics } => Op::Instrument { t, slot: o(slot), fut, lib, ready_after, emits, panics },
                 Op::Poll { t, fut } => Op::Poll { t, fut: fo(fut) },
@@ -695,6 +698,42 @@ fn run_case(case: &Case) -> Outcome {
                                 sp.record("not_declared", v);
                             }
                         })
+                    }
+                }
+            }
+            Op::FollowsFromGuard { t, slot, g } => {
+                let (t, s) = (t as usize % NT, slot as usize % NSLOT);
+                let owned: Vec<usize> = (0..m.guards[t].len()).filter(|k| matches!(m.guards[t][*k], MGuard::Owned { .. })).collect();
+                match (m.slots[s], owned.is_empty()) {
+                    (Some(h), false) => {
+                        let gi = owned[vp_engine::pick(g, owned.len())];
+                        let gh = match m.guards[t][gi] {
+                            MGuard::Owned { h } => h,
+                            MGuard::Borrowed { h, .. } => h,
+                        };
+                        if let H::On { col, id } = h {
+                            let oid = match gh {
+                                H::On { id, .. } => Some(id),
+                                H::NoDispatch => Some(0xDEAD),
+                                H::Disabled => None,
+                            };
+                            if let Some(oid) = oid {
+                                let mut e = exp(Kind::FollowsFrom, id, t);
+                                e.id2 = oid;
+                                m.want[col].push(e);
+                            }
+                        }
+                        let sl = slots.clone();
+                        st.run(t, move |ts| {
+                            let a = sl.lock().unwrap()[s].clone().unwrap();
+                            if let Guard::Owned(es) = &ts.guards[gi] {
+                                a.follows_from(es);
+                            }
+                        })
+                    }
+                    _ => {
+                        skipped = true;
+                        Ok(())
                     }
                 }
             }
@@ -1070,6 +1109,7 @@ impl Property for C03 {
             3 => (t(), s()).prop_map(|(t, to)| Op::Current { t, to }),
             1 => (t(), s()).prop_map(|(t, slot)| Op::OrCurrent { t, slot }),
             2 => t().prop_map(|t| Op::Event { t }),
+            1 => (t(), s(), any::<u16>()).prop_map(|(t, slot, g)| Op::FollowsFromGuard { t, slot, g }),
             3 => (t(), s(), f(), any::<bool>(), 0u8..4, any::<bool>(), proptest::bool::weighted(0.2)).prop_map(|(t, slot, fut, lib, ready_after, emits, panics)| Op::Instrument { t, slot, fut, lib, ready_after, emits, panics }),
             1 => (t(), f(), any::<bool>(), 0u8..4, any::<bool>()).prop_map(|(t, fut, lib, ready_after, emits)| Op::InCurrentSpan { t, fut, lib, ready_after, emits }),
             4 => (t(), f()).prop_map(|(t, fut)| Op::Poll { t, fut }),
